@@ -1,7 +1,7 @@
 #!/bin/bash
 # dev-time: apply a seeded change to /repo, run checks, undo. usage: seedtest.sh <patch.diff> <prop> [<prop>...]
 pf=$1; shift
-git -C /repo apply --3way "$pf" 2>/tmp/seedtest.err || git -C /repo apply "$pf" || { echo "cannot apply $pf"; cat /tmp/seedtest.err; git -C /repo checkout -- . ; exit 2; }
+git -C /repo apply "$pf" 2>/tmp/seedtest.err || { git -C /repo reset -q --hard HEAD; git -C /repo apply --3way "$pf" 2>>/tmp/seedtest.err; } || { echo "cannot apply $pf"; tail -3 /tmp/seedtest.err; git -C /repo reset -q --hard HEAD; exit 2; }
 for p in "$@"; do
   echo "== $p with $(echo $pf | sed 's#.*/seed/out/##;s#.*/seeded/##')"
   /verif/bin/mwcheck -p $p | grep -v "^    " | cut -c1-240
